@@ -477,6 +477,10 @@ def run(ctx):
     nfalse, nref = progress.check(ctx, "src/encoding/rle.c", "carquet_rle_decoder")
     ctx.floor("C04 refill functions of the RLE decoder", nref, 2)
 
+    ctx.clause("C04.9 no bounds guard of the reader is computed in 32 bits from an unbounded input value and then compared with a 64-bit size")
+    from ..rules import widen
+    widen.check(ctx, sorted(set(P.rel(f.file) for f in P.funcs_under("src/reader/"))) + ["src/metadata/schema.c", "src/metadata/page_index.c", "src/metadata/bloom_filter.c"])
+
     # ---- (2) recursion, (3) ownership
     recursion.check(ctx, "R8", "recursion")
     rfns = P.funcs_under("src/reader/") + P.funcs_in("src/metadata/schema.c", PT, "src/thrift/thrift_decode.c", "src/core/arena.c")
